@@ -174,6 +174,8 @@ class PDFPage:
                 log.warning(warning_msg)
         # Process each page contained in the document.
         for pageno, page in enumerate(cls.create_pages(doc)):
+            if maxpages and maxpages <= pageno:
+                break
             if pagenos and (pageno not in pagenos):
                 continue
             yield page
